@@ -156,8 +156,33 @@ def pKern : P String := do
   P.done
   pure (runShow (init k0) ops 0)
 
+/-- `wrap <L> <model>×L | <npix> (label val)..` : HeterogeneousModel with one model per label -/
+def pWrap : P String := do
+  let ms ← P.list pModel
+  bar; let sig ← pPix; P.done
+  pure (showRats ((wrapApply ms sig).map (·.val)))
+
+/-- `resize h w H W v..` : row-major h×w map resized to H×W -/
+def pResize : P String := do
+  let h ← P.nat; let w ← P.nat; let H ← P.nat; let W ← P.nat
+  let rows ← P.rep (P.rep P.nat w) h
+  P.done
+  pure (" ; ".intercalate ((labelsFor rows H W).map showNats))
+
+/-- `labelseq h w v.. | k H W ..` : the label map in force after calls with signals of these shapes -/
+def pLabelSeq : P String := do
+  let h ← P.nat; let w ← P.nat
+  let rows ← P.rep (P.rep P.nat w) h
+  bar
+  let shapes ← P.list (do let a ← P.nat; let b ← P.nat; pure (a, b))
+  P.done
+  pure (" ; ".intercalate ((cacheRun rows shapes).map showNats))
+
 def dispatch : List String → Option String
   | "kern" :: rest => (pKern.run rest).map (·.1)
+  | "labelseq" :: rest => (pLabelSeq.run rest).map (·.1)
+  | "wrap" :: rest => (pWrap.run rest).map (·.1)
+  | "resize" :: rest => (pResize.run rest).map (·.1)
   | "run" :: rest => (pRun.run rest).map (·.1)
   | "thr" :: rest => (pThr.run rest).map (·.1)
   | ["poly", d] => do
